@@ -1,0 +1,18 @@
+// SPDX-FileCopyrightText: (C) 2024 Intel Corporation
+// SPDX-License-Identifier: Apache 2.0
+
+//go:build verif
+
+package kex
+
+import (
+	"crypto"
+
+	"github.com/fido-device-onboard/go-fdo/internal/nistkdf"
+)
+
+// VerifKDF exposes the internal key derivation function to the external
+// verification harness (built only with the "verif" build tag).
+func VerifKDF(hash crypto.Hash, shSe, contextRand []byte, bits uint16) []byte {
+	return nistkdf.KDF(hash, shSe, contextRand, bits)
+}
